@@ -49,6 +49,9 @@ pub fn make_response(code: u16, variant: &str) -> Response {
         "e" => Response::new(code),
         "d" => Response::drop_connection(),
         "g" => Response::get_body_and_reprocess(10),
+        // the response carries a `connection` field of its own
+        "k" => Response::new(code).with_header("Connection", AsciiString::try_from("keep-alive").unwrap()),
+        "u" => Response::text(code, "x").with_header("connection", AsciiString::try_from("Upgrade").unwrap()).with_header("x-a", AsciiString::try_from("1").unwrap()),
         "c" => Response::text(code, "x").with_header("Content-Length", AsciiString::try_from("1").unwrap()),
         "t" => Response::new(code).with_type(ContentType::Html).with_header("content-type", AsciiString::try_from("a/b").unwrap()),
         v if v.starts_with('f') => {
@@ -190,9 +193,9 @@ pub fn run_c20c(ctx: &mut Ctx) {
     let script = enc(b"GET /x HTTP/1.1\r\n\r\n");
     let mut idx = 0u64;
     for code in 100..=999u32 {
-        for v in ["e", "n", "s"] {
+        for v in ["e", "n", "s", "k", "u"] {
             idx += 1;
-            if ctx.mine(idx) {
+            if ctx.mine(idx) && (v == "e" || v == "n" || v == "s" || code % 100 < 4 || code % 7 == 0) {
                 case(ctx, &script, &format!("rr;wr:{code}:{v};wr:200:e;rr"));
             }
         }
